@@ -357,6 +357,9 @@ type StepObs struct {
 	Out   Out     `json:"out"`
 	Pool  []Frame `json:"pool"`
 	Nrows []int64 `json:"nrows"`
+	// Shared: non-empty when, after this step, two column slots of live frames have overlapping backing arrays
+	// (names the first such pair); the separation invariant of Heap.v observed on the real heap
+	Shared string `json:"shared,omitempty"`
 }
 type PfEntry struct {
 	S  BStr  `json:"s"`
